@@ -259,6 +259,18 @@ func (e *aEnv) apply(op aOp) {
 		e.tick(op)
 	case "rotate":
 		e.rotate()
+	case "rotate-only":
+		// a rotation whose compaction does not run (as when rotations outpace a compaction still in progress)
+		aof := e.inst.slock.aof
+		vAofIdle(aof)
+		aof.aofGlock.Lock()
+		if aof.RewriteAofFile(false) == nil {
+			aof.glock.Lock()
+			aof.isWaitRewite = false
+			aof.glock.Unlock()
+		}
+		aof.aofGlock.Unlock()
+		e.logf("rotate-only -> append.aof.%d", aof.aofFileIndex)
 	case "collect":
 		// the pool collectors run every 300 s of wall time (Server.handleFreeCollect); emulate that cadence
 		for _, d := range e.dbs {
